@@ -142,6 +142,9 @@ impl From<&Multiply128lutT> for LutAvx2 {
 impl Avx2 {
     #[target_feature(enable = "avx2")]
     unsafe fn mul_avx2(&self, x: &mut [[u8; 64]], log_m: GfElement) {
+        #[cfg(feature = "verif-hooks")]
+        crate::verif_hooks::trace(crate::verif_hooks::ISA_AVX2, crate::verif_hooks::PRIM_MUL);
+
         let lut = &self.mul128[log_m as usize];
         let lut_avx2 = LutAvx2::from(lut);
 
@@ -292,6 +295,9 @@ impl Avx2 {
         truncated_size: usize,
         skew_delta: usize,
     ) {
+        #[cfg(feature = "verif-hooks")]
+        crate::verif_hooks::trace(crate::verif_hooks::ISA_AVX2, crate::verif_hooks::PRIM_FFT);
+
         // Drop unsafe privileges
         self.fft_private(data, pos, size, truncated_size, skew_delta);
     }
@@ -435,6 +441,9 @@ impl Avx2 {
         truncated_size: usize,
         skew_delta: usize,
     ) {
+        #[cfg(feature = "verif-hooks")]
+        crate::verif_hooks::trace(crate::verif_hooks::ISA_AVX2, crate::verif_hooks::PRIM_IFFT);
+
         // Drop unsafe privileges
         self.ifft_private(data, pos, size, truncated_size, skew_delta);
     }
@@ -497,6 +506,9 @@ impl Avx2 {
 impl Avx2 {
     #[target_feature(enable = "avx2")]
     unsafe fn eval_poly_avx2(erasures: &mut [GfElement; GF_ORDER], truncated_size: usize) {
+        #[cfg(feature = "verif-hooks")]
+        crate::verif_hooks::trace(crate::verif_hooks::ISA_AVX2, crate::verif_hooks::PRIM_EVAL_POLY);
+
         utils::eval_poly(erasures, truncated_size);
     }
 }
